@@ -32,6 +32,7 @@ CONSTANTS Vers,        \* protocol versions of the frame headers (subset of 1..4
           AbsHdr       \* header length used for ver >= 5 (Segments.tla scales it down; 9 in reality)
 
 VARIABLES frames,      \* what the server sends: Seq(Kinds)
+          wire,        \* tagged bytes still in the network (not yet handed to the connection)
           sent,        \* number of wire bytes handed to the connection so far
           buf,         \* _io_buffer / cql frame buffer: bytes read but not yet consumed
           cur,         \* _current_frame: index of the frame whose header has been parsed, 0 = None
@@ -39,7 +40,7 @@ VARIABLES frames,      \* what the server sends: Seq(Kinds)
           pushed,      \* invocations of push watchers, in order
           order,       \* frame indices in the order process_msg saw them
           desync       \* a header was parsed from bytes that are not a header
-fvars == <<frames, sent, buf, cur, delivered, pushed, order, desync>>
+fvars == <<frames, wire, sent, buf, cur, delivered, pushed, order, desync>>
 
 (* frame shapes: neg = server push (negative stream id) *)
 Kinds == [ver : Vers, neg : {FALSE}, blen : PosLens] \cup [ver : Vers, neg : {TRUE}, blen : NegLens]
@@ -104,19 +105,20 @@ SetF(r) ==
     /\ pushed' = r.pushed /\ order' = r.order /\ desync' = r.desync
 
 InitWith(fs) ==
-    /\ frames = fs /\ sent = 0
+    /\ frames = fs /\ sent = 0 /\ wire = WireOf(fs, Len(fs))
     /\ buf = <<>> /\ cur = 0 /\ delivered = <<>> /\ pushed = <<>> /\ order = <<>> /\ desync = FALSE
 
 Init == \E fs \in FrameSeqs : InitWith(fs)
 
 Read(k) ==
     /\ ~desync
-    /\ sent + k <= WireLen
+    /\ k \in 1..Len(wire)
     /\ sent' = sent + k
-    /\ SetF(Feed(frames, FState, SubSeq(Wire, sent + 1, sent + k)))
+    /\ wire' = SubSeq(wire, k + 1, Len(wire))
+    /\ SetF(Feed(frames, FState, SubSeq(wire, 1, k)))
     /\ UNCHANGED frames
 
-Next == \E k \in 1..WireLen : Read(k)
+Next == \E k \in 1..Len(wire) : Read(k)
 
 Spec == Init /\ [][Next]_fvars
 
@@ -150,7 +152,8 @@ Inv_Exact ==
 (* nothing is lost or delivered in part: the buffer is exactly the unconsumed tail *)
 Inv_NoPartial ==
     /\ sent = SumLen(frames, NDone) + Len(buf)
-    /\ buf = SubSeq(Wire, sent - Len(buf) + 1, sent)
+    /\ sent + Len(wire) = WireLen
+    /\ buf \o wire = SubSeq(Wire, sent - Len(buf) + 1, WireLen)
 
 (* every frame that is completely there has been delivered (no response is held back) *)
 Inv_Eager ==
@@ -159,7 +162,7 @@ Inv_Eager ==
     /\ cur # 0 <=> (NDone < N /\ Len(buf) >= HdrLen(frames[NDone + 1].ver))
     /\ cur # 0 => cur = NDone + 1
 
-Inv_Terminal == sent = WireLen => (NDone = N /\ buf = <<>> /\ cur = 0)
+Inv_Terminal == wire = <<>> => (NDone = N /\ buf = <<>> /\ cur = 0)
 
 (* ------------------------- vacuity witnesses (must be violated) ---------- *)
 Witness_PartialHeader == ~(Len(buf) > 0 /\ cur = 0)
